@@ -233,6 +233,11 @@ BagObl(px, b, den, bind, natural) ==
 (*   addin    A.add(v, n) in place, observed as R; afterwards toks2 (B)    *)
 (*            and toks itself (C) are parsed afresh: what was done to one  *)
 (*            object does not reach formulas parsed later                  *)
+(*   reuse    ONE SubstanceSolver instance solves toks2 first - a formula   *)
+(*            that is rejected after some of it was read when one of its   *)
+(*            species is not tabulated - and then toks: R is what the      *)
+(*            second call returns; it is the decomposition of toks alone   *)
+(*            (property C02's idea on the materials instance of the solver)*)
 (*   perturb  every quantity A reports is converted in place to another    *)
 (*            unit by the caller; A observed again as R: the results do    *)
 (*            not depend on the unit a reported quantity was converted to  *)
@@ -254,10 +259,13 @@ FormulaRec(it) ==
       used == {v \in Vars : all[v] > 0}
       badsp == \E v \in used : ~SpValid(it.bind[v])
       unsp  == ~badsp /\ \E v \in used : SpUnspecified(it.bind[v], it.natural)
-      cls  == IF badsp \/ ~ok2 THEN "invalid"
+      cls  == IF badsp \/ ~ok2 \/ (it.op = "reuse" /\ ~Parses(it.toks2)) THEN "invalid"
               ELSE IF Unspecified(ast) \/ (two /\ Unspecified(ast2)) THEN "unspecified"
               ELSE IF unsp THEN "unspecified:abundance" ELSE "wellformed"
       m    == Mach(ast)
+      \* op = "reuse": the formula solved first
+      bag0  == IF it.op = "reuse" /\ Parses(it.toks2) THEN Expand(ParseIdeal(it.toks2)) ELSE BZero
+      bad0  == \E v \in Vars : bag0[v] > 0 /\ ~SpValid(it.bind[v])
       O(px, b, den) == BagObl(px, b, den, it.bind, it.natural)
   IN  [id |-> it.id, kind |-> "formula", cls |-> cls, toks |-> it.toks, natural |-> it.natural, op |-> it.op,
        tags |-> Features(ast) \cup (IF two /\ ok2 THEN DevTags(ast2) ELSE {}) \cup {"op_" \o it.op}
@@ -275,6 +283,8 @@ FormulaRec(it) ==
                            [] it.op = "addel"   -> O("R.", bagR, 1) \o O("A2.", bag, 1)
                            [] it.op = "addin"   -> O("R.", bagR, 1) \o O("B.", bag2, 1) \o O("C.", bag, 1)
                            [] it.op = "perturb" -> O("R.", bag, 1)
+                           [] it.op = "reuse"   -> (IF bad0 THEN <<Exact("first formula rejected", Obs("first.raises"), Q(1, 1))>> ELSE <<>>)
+                                                   \o O("R.", bag, 1)
                            [] OTHER -> <<>>)]
 
 FileRec(it) == IF it.kind = "species" THEN SpeciesRec(it) ELSE FormulaRec(it)
